@@ -32,4 +32,46 @@ func init() {
 		Assume:  stdAssume,
 		Outside: "deeper/wider trees and longer lists; chains of 3-4 layers (a chain step is a merge whose parent is an arbitrary tree of the bound; multi-layer histories are exercised under C02); null anywhere in the child, NaN, $invert with a non-true value (documentation silent: excluded, neither pinned nor forbidden); string leaves other than plain tokens s0..s3 and the directive strings placed by the generators (string contents: C06/C07)",
 	})
+
+	toolAssume := append([]string{
+		"reflect.DeepEqual: structural model (nil and empty containers differ), leaf comparisons as formulas",
+		"bkl.New: os.OpenRoot(\"/\") returns an opaque root handle; os.Environ is empty unless the harness sets it",
+	}, stdAssume...)
+	reg(propSpec{
+		ID: "C15",
+		Harnesses: []harnessSpec{
+			{Pkg: "bkld", Func: "HarnessC15_kinds", Tiers: "qt", Covers: []string{"diff.same", "diff.changed"},
+				Bound: "kind matrix {scalar,{},{a:s},[],[s]}^2 at one key next to an unchanged key"},
+			{Pkg: "bkld", Func: "HarnessC15_maps", Tiers: "qt", Covers: []string{"diff.same", "diff.changed"},
+				Bound: "quick: {a: scalar|flat map|[], b: scalar?} on both sides; thorough: all pairs of maps of depth<=2 over keys {a,b}"},
+			{Pkg: "bkld", Func: "HarnessC15_lists", Tiers: "qt", Covers: []string{"diff.same", "diff.changed"},
+				Bound: "a list under one key on both sides, length<=2 (quick) / 3 (thorough), entries scalar | {a} | {a,b}; every equality pattern among the entries is solver-decided"},
+		},
+		Assume:  toolAssume,
+		Outside: "deeper trees, longer lists; file formats and the I/O glue of cmd/bkld/main.go (diffDoc is called directly; base and target are $-free so Document.Process is the identity); pairs inside the known-finding regions C15-R1..R4 (their witnesses are replayed natively on every run)",
+	})
+	reg(propSpec{
+		ID: "C16",
+		Harnesses: []harnessSpec{
+			{Pkg: "bkli", Func: "HarnessC16_self", Tiers: "qt", Covers: []string{"c16.checked"},
+				Bound: "intersect(x,x)=x for maps of depth<=3, keys {a,b}, lists<=2"},
+			{Pkg: "bkli", Func: "HarnessC16_pair", Tiers: "qt", Covers: []string{"c16.checked", "c16.roundtrip"},
+				Bound: "two inputs; quick: {a: scalar|flat map|list<=1, b: scalar?}; thorough: maps of depth<=2, lists<=1; result vs functional model, commonality, maximality, argument order, and bkld+bkl round trip per input"},
+			{Pkg: "bkli", Func: "HarnessC16_three", Tiers: "qt", Covers: []string{"c16.checked", "c16.roundtrip"},
+				Bound: "three flat inputs over keys {a,b}, folded as cmd/bkli main does"},
+		},
+		Assume:  toolAssume,
+		Outside: "four inputs; deeper trees; file formats and main.go glue (the fold of main is reproduced in the harness; cmd/bkld/diff.go is overlaid verbatim into package main of cmd/bkli for the round trip); known-finding regions C16-R1, C16-R3 and, for the round trip, C15-R1..R4",
+	})
+	reg(propSpec{
+		ID: "C17",
+		Harnesses: []harnessSpec{
+			{Pkg: "bklr", Func: "HarnessC17_required", Tiers: "qt", Covers: []string{"req.empty", "req.nonempty"},
+				Bound: "one document, maps over {a,b} of depth<=2 (quick) / 3 (thorough), lists<=2; leaves: $required, any scalar, or one 9-byte string that the solver may make equal to the marker ($-free otherwise)"},
+			{Pkg: "bklr", Func: "HarnessC17_layers", Tiers: "qt", Covers: []string{"req.empty", "req.nonempty", "layers.overridden"},
+				Bound: "two layers through Parser.MergeDocument: base depth<=2 with markers, upper layer overriding any subset of marker leaves / appending to lists"},
+		},
+		Assume:  toolAssume,
+		Outside: "markers as map keys; three layers; main.go glue",
+	})
 }
